@@ -27,6 +27,9 @@ import types
 import z3
 
 
+ALLOW_ID_HASH = False
+
+
 class Unsupported(Exception):
     pass
 
@@ -352,6 +355,8 @@ class SymStr:
     def __hash__(self):
         if self.is_concrete():
             return hash(self.concrete())
+        if ALLOW_ID_HASH:
+            return id(self)   # opt-in: only sound for containers holding a single symbolic string
         raise Unsupported("hash of a symbolic string")
 
     def is_concrete(self):
@@ -993,20 +998,38 @@ def _compile(p, flags=0):
     return p if isinstance(p, SymPattern) else SymPattern(p, flags)
 
 
+def _sub(pattern, repl, string, count=0, flags=0):
+    return _compile(pattern, flags).sub(repl, string, count)
+
+
+def _match(pattern, string, flags=0):
+    return _compile(pattern, flags).match(string)
+
+
+def _fullmatch(pattern, string, flags=0):
+    return _compile(pattern, flags).fullmatch(string)
+
+
+def _search(pattern, string, flags=0):
+    return _compile(pattern, flags).search(string)
+
+
+def _findall(pattern, string, flags=0):
+    return _compile(pattern, flags).findall(string)
+
+
+def _finditer(pattern, string, flags=0):
+    return _compile(pattern, flags).finditer(string)
+
+
+def _split(pattern, string, maxsplit=0, flags=0):
+    return _compile(pattern, flags).split(string, maxsplit)
+
+
 re_shim = types.SimpleNamespace(
-    compile=_compile,
-    sub=lambda p, repl, s, count=0, flags=0: _compile(p, flags).sub(repl, s, count),
-    match=lambda p, s, flags=0: _compile(p, flags).match(s),
-    fullmatch=lambda p, s, flags=0: _compile(p, flags).fullmatch(s),
-    search=lambda p, s, flags=0: _compile(p, flags).search(s),
-    findall=lambda p, s, flags=0: _compile(p, flags).findall(s),
-    finditer=lambda p, s, flags=0: _compile(p, flags).finditer(s),
-    split=lambda p, s, maxsplit=0, flags=0: _compile(p, flags).split(s, maxsplit),
-    escape=_re.escape,
-    Pattern=SymPattern,
-    Match=SymMatch,
-    error=_re.error,
-    UNICODE=_re.UNICODE,
+    compile=_compile, sub=_sub, match=_match, fullmatch=_fullmatch, search=_search, findall=_findall,
+    finditer=_finditer, split=_split, escape=_re.escape, Pattern=SymPattern, Match=SymMatch, error=_re.error,
+    UNICODE=_re.UNICODE, VERBOSE=_re.VERBOSE,
 )
 
 
